@@ -5,8 +5,8 @@ import parsergen as G
 
 MODEL = "C05"
 PROP_FILES = ["Props/C05.v"]
-RULE = ("histories of parse requests on ONE DefaultArgsParser: all sequences of length 1-2 (quick) / 1-3 (thorough) over a pool of 24 "
-        "requests (3 formats x strict/lenient x succeeding lines and each error kind), seeded random to length 6; each result compared "
+RULE = ("histories of parse requests on ONE DefaultArgsParser: all sequences of length 1-2 (quick) / 1-3 (thorough) over a pool of 38 "
+        "requests (5 formats, two of them sharing every name with another but not the flags, x strict/lenient x succeeding lines and each error kind), seeded random to length 6; each result compared "
         "with a fresh parser's; argv list, RawArgs tokens/option_tokens and the format's listings snapshotted before/after; non-trivial = >= 2 requests of which >= 1 sets "
         "an option; distinct by history")
 THEOREMS = ["parse_ignores_scratch", "reuse_eq_fresh"]
@@ -14,7 +14,11 @@ TRUSTED = ["'does not alter the list / raw arguments / format it was handed' is 
 ASSUMPTIONS = []
 
 EXTRA = ["zz"]
-FORMATS = [G.SMALL_FORMATS[21], G.SMALL_FORMATS[37], G.SMALL_FORMATS[31]]
+# formats 3 and 4 are "twins" of 0 and 2: the same option / argument / command names with other flags and aliases, so that
+# anything a parser remembers by NAME about an earlier format shows (seeded change C05-d)
+FORMATS = [G.SMALL_FORMATS[21], G.SMALL_FORMATS[37], G.SMALL_FORMATS[31],
+           [[G.opt("verbose", "v", G.REQ_V), G.opt("opt", "o", G.NO_VALUE), G.arg("a1", G.A_OPT | G.A_MULTI)]],
+           [[G.cname("server", []), G.cname("add", ["srv"]), G.opt("verbose", "v", G.NO_VALUE), G.opt("may", "m", G.REQ_V), G.arg("am", G.A_REQ)]]]
 LINES = [
     [0, ["x"]], [0, ["--opt", "v", "x"]], [0, ["-v", "x"]], [0, ["x", "y"]], [0, ["--zz"]], [0, []],
     [1, ["x", "--num=5", "--mul", "a", "--mul", "b"]], [1, ["x"]], [1, ["x", "--num=abc"]], [1, ["x", "-v", "--may"]],
@@ -22,6 +26,7 @@ LINES = [
     [2, ["server", "add", "--may=1", "p", "q"]], [2, ["p"]], [2, ["server", "-v"]], [2, ["--may", "--", "-v"]],
     [0, ["x", "--", "y", "z"]], [0, ["-v", "--opt"]], [1, ["x", "--mul", "a", "--zz"]], [2, ["server", "--", "--may"]],
     [0, ["--", "--opt"]], [1, ["--", "x", "y", "--num"]],
+    [3, ["-v", "x", "y"]], [3, ["--opt", "x", "y"]], [3, ["x"]], [4, ["server", "srv", "--may", "1", "p"]], [4, ["srv", "p"]], [4, ["--may"]],
 ]
 POOL = [[fi, 0, toks] for fi, toks in LINES] + [[fi, 1, toks] for fi, toks in LINES[:8] + LINES[16:18]]
 
